@@ -18,6 +18,7 @@ type Env struct {
 	old     *State
 	vars    map[string]Term
 	pkgName string
+	head    *State // state at the head of the current loop iteration (backedge clauses)
 }
 
 func (e *Env) with(name string, t Term) *Env {
@@ -238,6 +239,16 @@ func (e *Env) eval(x SExpr) Term {
 		n := *e
 		n.st = e.old
 		return n.eval(x.X)
+	case SCall:
+		if x.Fun == "atHead" && len(x.Args) == 1 {
+			if e.head == nil {
+				e.fail("atHead() is only allowed in loop backedge clauses")
+			}
+			n := *e
+			n.st = e.head
+			return n.eval(x.Args[0])
+		}
+		return e.call(x)
 	case SLet:
 		v := e.eval(x.Val)
 		v = fc.define("let", v)
@@ -281,8 +292,6 @@ func (e *Env) eval(x SExpr) Term {
 		r := mkSlice(slArr(s), mk(app("+", slOff(s).S, lo.S), SInt, nil), mk(app("-", hi.S, lo.S), SInt, nil), mk(app("-", slCap(s).S, lo.S), SInt, nil), s.T)
 		r.View = s.View
 		return r
-	case SCall:
-		return e.call(x)
 	}
 	e.fail("cannot evaluate %s", x)
 	return Term{}
